@@ -261,6 +261,33 @@ class ExprV:
         return SArr((frame.n,), lambda idx: Sym(f(V.lift(idx[0]))), kind)
 
 
+class RowIndexExpr(ExprV):
+    """pl.int_range(pl.len()): the row number; .is_in(values) is the predicate `row number occurs in values`"""
+
+    def __init__(self):
+        ExprV.__init__(self, "index")
+
+    def is_in(self, values, **kw):
+        return RowInExpr(A.from_nested(values))
+
+
+class RowInExpr(ExprV):
+    def __init__(self, values):
+        ExprV.__init__(self, "index")
+        self.values = values
+
+    def column_on(self, frame, kind="bool"):
+        vf = self.values.snapshot()
+        m = self.values.shape[0]
+
+        def fn(idx):
+            j = z3.Int(V.fresh_name("inj"))
+            hit = V.compare("==", vf((Sym(j),)), idx[0])
+            ht = V._bool_term(hit) if is_sym(hit) else z3.BoolVal(bool(hit))
+            return Sym(z3.Exists([j], z3.And(j >= 0, j < V.lift(m), ht)))
+        return SArr((frame.n,), fn, "bool")
+
+
 def _mask_of(frame, pred):
     if isinstance(pred, ExprV):
         if getattr(pred, "_mask_for", None) is not None and pred._mask_for[0] is frame:
@@ -647,4 +674,6 @@ def register(REG):
     REG["polars.concat"] = pl_concat
     REG["polars.col"] = lambda name="col", *a, **k: ExprV(name if isinstance(name, str) else "col")
     REG["polars.lit"] = lambda *a, **k: ExprV("lit")
+    REG["polars.len"] = lambda *a, **k: ExprV("len")
+    REG["polars.int_range"] = lambda *a, **k: RowIndexExpr()
     REG["polars.Expr"] = ExprV
